@@ -412,6 +412,11 @@ func checkParse(c *parseCase, o *pt.Obs) error {
 		// time by design: the plan legitimately differs between two parses.
 		o.Class("time_relative_plan_not_compared")
 	}
+	if out.cpu > 500*time.Millisecond {
+		// a second parse of a slow input only costs time; determinism is exercised on the rest
+		o.Class("slow_plan_not_compared")
+		repeats = 0
+	}
 	for i := 0; i < repeats; i++ {
 		out2, over2, err := runBounded(c.Lang, c.B, c.Scroll)
 		if err != nil || over2 {
@@ -441,7 +446,7 @@ func checkParse(c *parseCase, o *pt.Obs) error {
 			return fmt.Errorf("same text, different plan: %s parse #1 and #%d differ %s\ninput %s", c.Lang, i+2, firstDiff(out.dump, out2.dump), quoteInput(c.B))
 		}
 	}
-	if out.ok && !timeRel {
+	if out.ok && !timeRel && repeats > 0 {
 		o.Class("plan_compared")
 	}
 	return nil
@@ -514,7 +519,7 @@ func genParseCase(t *rapid.T) *parseCase {
 	case k < 86:
 		n := rapid.SampledFrom([]int{8, 32, 128, 1024, maxInput}).Draw(t, "maxBytes")
 		c = newParseCase(lang, "bytes", rapid.SliceOfN(rapid.Byte(), 0, n).Draw(t, "bytes"))
-	case k < 98:
+	case k < 99:
 		n := rapid.SampledFrom([]int{8, 32, 128, 1024}).Draw(t, "maxRunes")
 		var s string
 		if rapid.Bool().Draw(t, "punct") {
@@ -569,6 +574,11 @@ func surveyFile() string { return os.Getenv("C17_SURVEY") }
 var repoFrame = regexp.MustCompile(`(?m)^\s+(/repo/[^\s]+:\d+)`)
 
 func panicSite(stack string) string {
+	if i := strings.Index(stack, "panic: "); i >= 0 {
+		stack = stack[i:]
+	} else if i := strings.Index(stack, "fatal error: "); i >= 0 {
+		stack = stack[i:]
+	}
 	first := stack
 	if i := strings.IndexByte(stack, '\n'); i > 0 {
 		first = stack[:i]
